@@ -214,7 +214,7 @@ struct WlanEngine : Engine {
             try { got = is_wep_bss ? wep.decrypt(*pdu) : wpa.decrypt(*pdu); if (!is_wep_bss && !got) { /* a WEP decrypter on the same capture must not claim WPA frames */ bool w2 = wep.decrypt(*pdu); if (w2 && f.protected_) return Verdict::bad("wlan:wep-decrypter-claims-wpa-frame", "WEPDecrypter reported a frame of a WPA network as decrypted", idx); } }
             catch (exception_base& ex) { exc = demangle(typeid(ex).name()); st.inc("probe.exception_from_decrypt." + exc); }
             st.inc("chk.decrypt_call");
-            tr.add(fmt("step %d t=%lld %s bss=%d kid=%d bad=%s -> %d %s", idx, (long long)last_t, kind.c_str(), b_id, kid, bad.c_str(), got, exc.c_str()));
+            tr.add(fmt("step %d t=%lld %s bss=%d kid=%d bad=%s -> %d %s keys=%zu hs_cb=%zu", idx, (long long)last_t, kind.c_str(), b_id, kid, bad.c_str(), got, exc.c_str(), wpa.get_keys().size(), cb.hs.size()));
             bool is_data = kind.find("data") != std::string::npos; if (!is_data) { if (got) return Verdict::bad("wlan:non-data-frame-reported-decrypted", kind + " reported as decrypted", idx); continue; }
             judged = true;
             // premise of the completeness half: the plaintext is something libtins can represent (its LLC/SNAP payload parses)
